@@ -249,3 +249,29 @@ def run(ctx):
         cs = list(f.calls('psf_save_write_chunk'))
         ok = len(cs) >= 1 and all(f.s(f.unwrap(f.args(c)[0])) == '&%s->wchunks' % f.params[0]['n'] for c in cs)
         ctx.ob('SET-GATE', f.name + ':store', ok, f.loc(f.body), 'stores via psf_save_write_chunk (&psf->wchunks, ...)' if ok else 'does not store into the handle\'s wchunks table', None)
+
+    # ------------------------------------------------------------------ MATCH-RESULT
+    ctx.rule('MATCH-RESULT', 'in chunk.c every search loop that tests pchk->chunks [K].hash / .mark32 against the wanted id and then returns: the matched index K is what is returned (finders) or is stored '
+             'into iterator->current before the iterator is returned (so the iterator always designates the chunk that matched)', floor=3)
+    for f in prog.lib_fns():
+        if not f.file.endswith('/chunk.c'):
+            continue
+        for n in f.walk():
+            if n['k'] != 'IfStmt':
+                continue
+            cs = f.s(n['cond'])
+            import re as _re
+            m = _re.match(r'^\(pchk->chunks\[(\w+)\]\.(hash|mark32) == \w+\)$', cs)
+            if not m:
+                continue
+            K = m.group(1)
+            rets = [x for x in f.walk(n['then']) if x['k'] == 'ReturnStmt' and x['kids']]
+            for r in rets:
+                e = f.s(f.unwrap(f.N[r['kids'][0]]))
+                if e == K:
+                    ok, why = True, 'returns the matched index %s' % K
+                else:
+                    st = [y for y in f.walk(n['then']) if y['k'] == 'BinaryOperator' and y['op'] == '=' and f.s(y['kids'][0]).endswith('->current') and f.s(y['kids'][1]) == K and y['id'] < r['id']]
+                    ok = bool(st)
+                    why = 'stores the matched index into the iterator before returning it' if ok else 'returns %s WITHOUT recording the matched index %s: the iterator designates a different chunk' % (e, K)
+                ctx.ob('MATCH-RESULT', '%s:%s' % (f.name, cs), ok, f.loc(r), why, None)
